@@ -180,6 +180,7 @@ func VerifC04_Distribution() {
 	named := []common.Address{c02Origin, c02Contract, c02Other}[zz.Choose("named", 3)]
 	contract := &vm.Contract{CallerAddress: caller}
 	method := zz.Choose("method", 4)
+	newWithdraw := c02Other
 	var err error
 	switch method {
 	case 0:
@@ -189,7 +190,15 @@ func VerifC04_Distribution() {
 	case 2:
 		_, err = p.WithdrawValidatorCommission(ctx, c02Origin, contract, db, c02Method, []interface{}{sdk.ValAddress(named.Bytes()).String()})
 	default:
-		_, err = p.SetWithdrawAddress(ctx, c02Origin, contract, db, c02Method, []interface{}{named, sdk.AccAddress(c02Other.Bytes()).String()})
+		// the withdraw address given: a third party or the delegator itself (= reset to the default); before the call the
+		// delegator may already have pointed its rewards elsewhere
+		if zz.AnyBool("alreadyRedirected") {
+			c02.withdraw[named] = c02Pool
+		}
+		if zz.AnyBool("resetToSelf") {
+			newWithdraw = named
+		}
+		_, err = p.SetWithdrawAddress(ctx, c02Origin, contract, db, c02Method, []interface{}{named, sdk.AccAddress(newWithdraw.Bytes()).String()})
 	}
 	if err != nil {
 		zz.Assert(len(c02.acted) == 0, "a refused call does not reach the distribution module")
@@ -201,7 +210,7 @@ func VerifC04_Distribution() {
 	zz.Assert(len(c02.acted) == 1, "the distribution module is asked exactly once")
 	zz.Assert(c02.acted[0] == sdk.AccAddress(named.Bytes()).String(), "the module acts for exactly the named account")
 	if method == 3 {
-		zz.Assert(c02.withdraw[named] == c02Other, "the withdraw address recorded is the one given")
+		zz.Assert(c02.withdraw[named] == newWithdraw, "the withdraw address recorded is the one given, exactly as the native message would record it")
 	}
 	zz.Reach("end")
 }
